@@ -187,6 +187,10 @@ def extract(region, unit_cfg):
             rules_mod.r17_reroot(f)
             if substs:
                 rules_mod.subst(f, substs, "R12")
+        elif region.kind == "const":
+            # R9: visibility has no meaning in the single-file unit; a `pub(crate) const` would not be usable from spec contexts
+            text = re.sub(r"^(\s*)pub\s*\(\s*crate\s*\)\s+const\b", r"\1pub const", text, count=1)
+            f = rules_mod.rewrite(text, "%s:%d" % (region.file, l0), region.rules, substs, None, None)
         else:
             wc = None
             if "R10" in region.rules:
